@@ -25,6 +25,7 @@ class Function(Token):
         stack.append(self)
         t = Parenthesis('(')
         t.attr['check_n'] = check_n
+        t.attr['brace'] = self.attr.get('brace', False)
         t.ast(tokens, stack, builder)
 
     def compile(self):
@@ -45,13 +46,20 @@ class Array(Function):
 
     def ast(self, tokens, stack, builder, check_n=lambda t: t.n_args):
         if self.has_start:
-            Function('ARRAY(').ast(tokens, stack, builder, check_n=check_n)
-            Function('ARRAY(').ast(tokens, stack, builder, check_n=check_n)
+            for _ in range(2):
+                token = Function('ARRAY(')
+                token.attr['brace'] = True  # Closed by a brace only.
+                token.ast(tokens, stack, builder, check_n=check_n)
         else:
             token = Parenthesis(')')
+            token.attr['brace'] = True
             token.ast(tokens, stack, builder)
             if self.has_sep:
                 check_n = functools.partial(_check_tkn_n_args, token.get_n_args)
-                Function('ARRAY(').ast(tokens, stack, builder, check_n=check_n)
+                token = Function('ARRAY(')
+                token.attr['brace'] = True
+                token.ast(tokens, stack, builder, check_n=check_n)
             else:
-                Parenthesis(')').ast(tokens, stack, builder)
+                token = Parenthesis(')')
+                token.attr['brace'] = True
+                token.ast(tokens, stack, builder)
